@@ -487,14 +487,11 @@ theorem finv_saveWal {s s' : State} (id : Nat) (t : Task) (h : FInv s) (htm : t 
 
 /-! ### `CheckpointList.Save` -/
 
-theorem walOk_saveList {s : State} {c : Ckpt} (hw : WalOk s.files c)
-    (hn : ∀ p ∈ s.pending, c.walId ≠ p.walId) : WalOk (saveList s).files c := by
-  show assoc (s.files.wals.filter (fun p => !(s.pending.map (·.walId)).contains p.1)) c.walId = some c.recs
+theorem walOk_destroy {f : Files} {c : Ckpt} (x : Nat) (hw : WalOk f c) (hn : c.walId ≠ x) :
+    assoc (f.wals.filter (fun q => !([x]).contains q.1)) c.walId = some c.recs := by
   rw [assoc_filter]
   · exact hw
-  · intro hm
-    obtain ⟨p, hp, e⟩ := List.mem_map.1 hm
-    exact hn p hp e.symm
+  · intro hm; simp at hm; exact hn hm
 
 theorem find_doc : ∀ (cs : List Ckpt), (∀ c ∈ cs, ∀ c' ∈ cs, c.id = c'.id → c = c') →
     ∀ c ∈ cs, (cs.map Ckpt.doc).find? (fun cd => cd.id == c.id) = some c.doc := by
@@ -517,11 +514,11 @@ theorem find_doc : ∀ (cs : List Ckpt), (∀ c ∈ cs, ∀ c' ∈ cs, c.id = c'
         · exact h'
       exact ih (fun a ha b hb e => hinj a (List.mem_cons_of_mem _ ha) b (List.mem_cons_of_mem _ hb) e) c hc'
 
-theorem docOk_saveList {s : State} (hinj : ∀ c ∈ s.ckpts, ∀ c' ∈ s.ckpts, c.id = c'.id → c = c')
-    (c : Ckpt) (hc : c ∈ s.ckpts) : DocOk (saveList s).files c :=
+theorem docOk_writeDoc {s : State} (hinj : ∀ c ∈ s.ckpts, ∀ c' ∈ s.ckpts, c.id = c'.id → c = c')
+    (c : Ckpt) (hc : c ∈ s.ckpts) : DocOk (writeDoc s).files c :=
   ⟨s.ckpts.map Ckpt.doc, rfl, find_doc s.ckpts hinj c hc⟩
 
-theorem finv_saveList {s : State} (h : FInv s) : FInv (saveList s) := by
+theorem finv_writeDoc {s : State} (h : FInv s) : FInv (writeDoc s) := by
   constructor
   · exact tablesOk_files (f := s.files) rfl h.live
   · intro c hc; exact tablesOk_files (f := s.files) rfl (h.ck c hc)
@@ -531,16 +528,45 @@ theorem finv_saveList {s : State} (h : FInv s) : FInv (saveList s) := by
   · exact h.dused
   · exact h.tinj
   · exact h.wltc
-  · intro c hc; exact absurd hc List.not_mem_nil
+  · exact h.wltp
   · exact h.wltt
   · exact h.winj
-  · intro c _ p hp; exact absurd hp List.not_mem_nil
+  · exact h.wdisj
   · exact h.t1
   · exact h.t3
-  · intro t ht hs c hc e; exact walOk_saveList (h.t2 t ht hs c hc e) (h.wdisj c hc)
+  · intro t ht hs c hc e; exact walOk_files (f := s.files) rfl (h.t2 t ht hs c hc e)
   · intro c hc hd
     obtain ⟨a, _⟩ := h.dn c hc hd
-    exact ⟨walOk_saveList a (h.wdisj c hc), docOk_saveList h.idinj c hc⟩
+    exact ⟨walOk_files (f := s.files) rfl a, docOk_writeDoc h.idinj c hc⟩
+
+theorem finv_destroy {s s' : State} (h : FInv s) (hs : destroyOne s = some s') : FInv s' := by
+  unfold destroyOne at hs
+  split at hs
+  · cases hs
+  · rename_i p ps hp
+    simp only [Option.some.injEq] at hs
+    subst hs
+    have hmem : ∀ q ∈ ps, q ∈ s.pending := by intro q hq; rw [hp]; exact List.mem_cons_of_mem _ hq
+    have hpm : p ∈ s.pending := by rw [hp]; exact List.mem_cons_self
+    constructor
+    · exact tablesOk_files (f := s.files) rfl h.live
+    · intro c hc; exact tablesOk_files (f := s.files) rfl (h.ck c hc)
+    · exact h.idinj
+    · exact h.cused
+    · exact h.tused
+    · exact h.dused
+    · exact h.tinj
+    · exact h.wltc
+    · intro q hq; exact h.wltp q (hmem q hq)
+    · exact h.wltt
+    · exact h.winj
+    · intro c hc q hq; exact h.wdisj c hc q (hmem q hq)
+    · exact h.t1
+    · exact h.t3
+    · intro t ht hst c hc e; exact walOk_destroy p.walId (h.t2 t ht hst c hc e) (h.wdisj c hc p hpm)
+    · intro c hc hd
+      obtain ⟨a, b⟩ := h.dn c hc hd
+      exact ⟨walOk_destroy p.walId a (h.wdisj c hc p hpm), docOk_files (f := s.files) rfl b⟩
 
 /-! ### `saveDoc` (after the save) and `retain` (before the save) -/
 
@@ -838,11 +864,11 @@ theorem finv_saveDoc_step (s s' : State) (id : Nat) (h : FInv s)
     · cases hs
     · rename_i t hfind
       cases hs
-      have htm : t ∈ (saveList s).tasks := List.mem_of_find?_eq_some hfind
+      have htm : t ∈ (writeDoc s).tasks := List.mem_of_find?_eq_some hfind
       have hp := List.find?_some hfind
       have hp' : t.id = id ∧ t.walSaved = true := by simpa using hp
-      exact finv_saveDoc id t (finv_saveList h) htm hp'.1 hp'.2
-        (fun c hc => docOk_saveList h.idinj c hc) rfl rfl rfl rfl rfl rfl rfl rfl rfl
+      exact finv_saveDoc id t (finv_writeDoc h) htm hp'.1 hp'.2
+        (fun c hc => docOk_writeDoc h.idinj c hc) rfl rfl rfl rfl rfl rfl rfl rfl rfl
 
 theorem finv_retain_step (s s' : State) (ids : List Nat) (h : FInv s)
     (hs : step s (.retain ids) = some s') : FInv s' := by
@@ -852,7 +878,7 @@ theorem finv_retain_step (s s' : State) (ids : List Nat) (h : FInv s)
   · split at hs
     · cases hs
     · cases hs
-      exact finv_saveList (finv_retain_pre ids h rfl rfl rfl rfl rfl rfl rfl rfl rfl)
+      exact finv_retain_pre ids h rfl rfl rfl rfl rfl rfl rfl rfl rfl
 
 theorem finv_crash (s s' : State) (h : FInv s) (hs : step s .crash = some s') : FInv s' := by
   simp only [step] at hs
@@ -860,6 +886,65 @@ theorem finv_crash (s s' : State) (h : FInv s) (hs : step s .crash = some s') : 
   · cases hs
   · cases hs
     exact finv_frame (s := s) ⟨rfl, rfl, rfl, rfl, rfl, rfl, rfl, rfl, rfl⟩ h
+
+/-- deleting a pending WAL file changes nothing but `files.wals` and `pending` -/
+theorem destroyOne_same {s s' : State} (hs : destroyOne s = some s') :
+    s'.db = s.db ∧ s'.wal = s.wal ∧ s'.latest = s.latest ∧ s'.ckpts = s.ckpts ∧ s'.done = s.done ∧
+    s'.tasks = s.tasks ∧ s'.used = s.used := by
+  unfold destroyOne at hs
+  split at hs
+  · cases hs
+  · simp only [Option.some.injEq] at hs; subst hs; exact ⟨rfl, rfl, rfl, rfl, rfl, rfl, rfl⟩
+
+theorem finv_saveList_step (s s' : State) (h : FInv s) (hs : step s .saveList = some s') : FInv s' := by
+  simp only [step] at hs
+  split at hs
+  · cases hs
+  · cases hs; exact finv_writeDoc h
+
+theorem finv_destroy_step (s s' : State) (h : FInv s) (hs : step s .destroy = some s') : FInv s' := by
+  simp only [step] at hs
+  split at hs
+  · cases hs
+  · exact finv_destroy h hs
+
+theorem finv_orphan_step (s s' : State) (id : Nat) (run : Run) (h : FInv s)
+    (hs : step s (.orphan id run) = some s') : FInv s' := by
+  simp only [step] at hs
+  split at hs
+  · cases hs
+  · split at hs
+    · cases hs
+    · rename_i hlt
+      simp only [Option.some.injEq] at hs
+      subst hs
+      have hge : s.db.nextId ≤ id := Nat.le_of_not_lt hlt
+      have keep : ∀ lv, TablesOk s.files s.db.nextId lv →
+          TablesOk { s.files with tables := (id, run) :: s.files.tables } s.db.nextId lv := by
+        intro lv hlv t ht
+        obtain ⟨a, b⟩ := hlv t ht
+        refine ⟨a, ?_⟩
+        show assoc ((id, run) :: s.files.tables) t.id = some t.run
+        rw [assoc_cons_ne _ _ (by omega)]; exact b
+      constructor
+      · exact keep _ h.live
+      · intro c hc; exact keep _ (h.ck c hc)
+      · exact h.idinj
+      · exact h.cused
+      · exact h.tused
+      · exact h.dused
+      · exact h.tinj
+      · exact h.wltc
+      · exact h.wltp
+      · exact h.wltt
+      · exact h.winj
+      · exact h.wdisj
+      · exact h.t1
+      · exact h.t3
+      · intro t ht hst c hc e; exact walOk_files (f := s.files) rfl (h.t2 t ht hst c hc e)
+      · intro c hc hd
+        obtain ⟨a, b⟩ := h.dn c hc hd
+        exact ⟨walOk_files (f := s.files) rfl a, docOk_files (f := s.files) rfl b⟩
 
 theorem finv_step (s s' : State) (a : Act) (h : FInv s) (hs : step s a = some s') : FInv s' :=
   match a, hs with
@@ -871,6 +956,9 @@ theorem finv_step (s s' : State) (a : Act) (h : FInv s) (hs : step s a = some s'
   | .saveWal id, hs => finv_saveWal_step s s' id h hs
   | .saveDoc id, hs => finv_saveDoc_step s s' id h hs
   | .retain ids, hs => finv_retain_step s s' ids h hs
+  | .saveList, hs => finv_saveList_step s s' h hs
+  | .destroy, hs => finv_destroy_step s s' h hs
+  | .orphan id run, hs => finv_orphan_step s s' id run h hs
   | .crash, hs => finv_crash s s' h hs
   | .open id rots, hs => finv_open s s' id rots hs
 
